@@ -1,5 +1,6 @@
 import LeaspyVerif.Proto
 import LeaspyVerif.Model.Masked
+import LeaspyVerif.Model.Taint
 open LeaspyVerif LeaspyVerif.Proto LeaspyVerif.Masked
 
 /-
@@ -12,6 +13,18 @@ requests (values: exact rationals `p/q`, or `nan`, `inf`, `-inf`; weights: bit s
     prog is postfix: `v<i>` | `add` `sub` `mul` `div` | `neg:<fill>` `sqr:<fill>` `ext<i>:<fill>` (fill = `none` or a value)
                      | `wv` (.weighted_value) | `rw` (reweight a b) | `sum<j>` (sum_dim with keys<j>, n<j>)
     external function table:  0 = identity, 1 = x ↦ x/2 + 1/4, 2 = abs
+
+  taint outs=<id,…> nodes=<node;…> roles=<r;…> pops=<f,…;…> inds=<f,…;…> unks=<f,…;…>
+        the torch program recorded from the real code (IR of `drivers/C07.lean` / `Model/Trace.lean`: nodes `P I J U K E O`),
+        translated by `Taint.toGather`; `roles`: one per data input (`I`/`J`, in order): `k` = known constant (the mask),
+        `c` = clean, `d<bits>` = bit 1 marks a garbage position; doubles are `f<bits>` (nan / ±inf included)
+        → flags=<id>:<one of k,c,d per element>;…   abstract value of every element of the requested outputs
+          vals=<id>:<shape>:<f,…>;…                 their values under the gather semantics on doubles
+          dirtyesc=<ids|_>                          `E` nodes (python escapes) that read a dirty element
+          unsupported=<ids|_>                       operations outside the table (treated as all-dirty inputs)
+          xcheck=<1|0:id|na>                         the gather evaluation equals `Trace.fnApply`'s on every translated node
+  taintpath … out=<id> pos=<q>
+        → path=<id>:<q>,…                           a chain of dirty operands from that element back to a garbage input cell
 -/
 
 def parseX (s : String) : Option XVal :=
@@ -105,6 +118,209 @@ def buildExpr (keysTab : List (List Nat × Nat)) (toks : List String) : Option M
         | _ => none
   go toks []
 
+/-! ### recorded programs (`Model/Taint.lean`) -/
+namespace TaintDrv
+open LeaspyVerif.Trace LeaspyVerif.Taint
+
+def floatOps : Ops Float :=
+  { zero := 0, one := 1, add := (· + ·), sub := (· - ·), mul := (· * ·), div := (· / ·), lt := (· < ·), eq := (· == ·),
+    exp := Float.exp, log := Float.log, pow := Float.pow, sqrt := Float.sqrt, ofNat := Float.ofNat }
+
+def parseShape (s : String) : Option (List Nat) := parseList parseNat s "x"
+def fmtShape (s : List Nat) : String := fmtList toString s "x"
+
+def parseEw : String → Option Ew
+  | "add" => some .add | "sub" => some .sub | "mul" => some .mul | "div" => some .div | "pow" => some .pow
+  | "ge" => some .ge | "gt" => some .gt | "le" => some .le | "lt" => some .lt | "eq" => some .eq | "ne" => some .ne
+  | "and" => some .and | "or" => some .or | "not" => some .not | "neg" => some .neg | "exp" => some .exp
+  | "log" => some .log | "log1p" => some .log1p | "sigmoid" => some .sigmoid | "sign" => some .sign | "abs" => some .abs
+  | "sqrt" => some .sqrt | "square" => some .square | "id" => some .id | "where" => some .where_
+  | "maximum" => some .maximum | "minimum" => some .minimum | "bce" => some .bce | "fill0" => some .fill0
+  | "fill1" => some .fill1 | _ => none
+
+def parseRed : String → Option Red
+  | "sum" => some .sum | "prod" => some .prod | "max" => some .max | "min" => some .min | "mean" => some .mean
+  | "all" => some .all | "any" => some .any | "median" => some .median | _ => none
+
+def parseOptInt (s : String) : Option (Option Int) := if s == "_" || s == "" then some none else some <$> parseInt s
+
+def parseIx (s : String) : Option Ix :=
+  if s == ":" then some .all else if s == "N" then some .new else if s == "E" then some .ell
+  else if s.startsWith "i" then Ix.at <$> parseInt (s.drop 1).toString
+  else if s.startsWith "s" then
+    match (s.drop 1).toString.splitOn ":" with
+    | [a, b, c] => do
+      let a ← parseOptInt a
+      let b ← parseOptInt b
+      let c ← parseNat c
+      some (.slice a b c)
+    | _ => none
+  else none
+
+def parseTOp (name params : String) : Option (TOp Float) :=
+  match name.splitOn "." with
+  | ["ew", e] => TOp.ew <$> parseEw e
+  | ["red", r] => do
+    let k ← parseRed r
+    match params.splitOn ":" with
+    | [ds, keep] => do
+      let ds ← parseList parseInt ds
+      let keep ← parseBool keep
+      some (.red k ds keep)
+    | _ => none
+  | ["view"] => some .view
+  | ["squeeze"] => TOp.squeeze <$> parseOptInt params
+  | ["unsqueeze"] => TOp.unsqueeze <$> parseInt params
+  | ["expand"] => some .expand
+  | ["getitem"] => TOp.getitem <$> parseList parseIx params
+  | ["cat"] => TOp.cat <$> parseInt params
+  | ["stack"] => TOp.stack <$> parseInt params
+  | ["matmul"] => some .matmul
+  | ["transpose"] => match params.splitOn "," with
+    | [a, b] => do some (.transpose (← parseInt a) (← parseInt b))
+    | _ => none
+  | ["softmax"] => TOp.softmax <$> parseInt params
+  | ["cumsum"] => TOp.cumsum <$> parseInt params
+  | ["mselect"] => some .mselect
+  | ["mscatter"] => some .mscatter
+  | "unknown" :: rest => some (.unknown (".".intercalate rest))
+  | _ => none
+
+def parseNode (s : String) : Option (TNode Float) :=
+  match s.splitOn "|" with
+  | ["P", k, sh] => do some (.pop (← parseNat k) (← parseShape sh))
+  | ["I", k, sh] => do some (.ind (← parseNat k) (← parseShape sh))
+  | ["J", k, sh] => do some (.ind1 (← parseNat k) (← parseShape sh))
+  | ["U", k, sh] => do some (.unk (← parseNat k) (← parseShape sh))
+  | ["K", sh, d] => do
+    let sh ← parseShape sh
+    let d ← parseList parseFloat d
+    if d.length != numel sh then none
+    some (.op (.const ⟨sh, d.toArray⟩) [] sh)
+  | ["E", a, w] => do some (.escape (← parseNat a) (← parseBool w))
+  | ["O", name, args, sh, params] => do
+    let o ← parseTOp name params
+    some (.op o (← parseList parseNat args) (← parseShape sh))
+  | _ => none
+
+/-- well-scoped: every argument is an earlier node -/
+def wellScoped (nodes : List (TNode Float)) : Bool :=
+  nodes.zipIdx.all fun (nd, i) => match nd with
+    | .op _ args _ => args.all (· < i)
+    | .escape a _ => a < i
+    | _ => true
+
+
+def parseProg (args : List String) : Option (List (TNode Float) × List Nat) := do
+  let outs ← (kv args "outs") >>= parseList parseNat
+  let nodes ← (kv args "nodes") >>= (parseList parseNode · ";")
+  if !wellScoped nodes || outs.any (· ≥ nodes.length) then none
+  some (nodes, outs)
+
+def leafCount (nodes : List (TNode Float)) : Nat × Nat × Nat :=
+  ((nodes.filter fun | .pop _ _ => true | _ => false).length,
+   (nodes.filter fun | .ind _ _ => true | .ind1 _ _ => true | _ => false).length,
+   (nodes.filter fun | .unk _ _ => true | _ => false).length)
+
+inductive Role | known | clean | dirty (bits : List Bool)
+
+def parseRole (s : String) : Option Role :=
+  if s == "k" then some .known else if s == "c" then some .clean
+  else if s.startsWith "d" then Role.dirty <$> parseBits (s.drop 1).toString else none
+
+def feq (a b : Float) : Bool := a.toBits == b.toBits || (a.isNaN && b.isNaN) || a == b
+
+structure Setup where
+  tnodes : List (TNode Float)
+  outs : List Nat
+  gnodes : List (GNode Float)
+  shapes : List (List Nat)
+  bad : List Nat
+  inputs : Nat → List Float
+  ainputs : Nat → List (AVal Float)
+  pops : List (List Float)
+  inds : List (List Float)
+
+def setup (args : List String) : Option Setup := do
+  let (tnodes, outs) ← parseProg args
+  let (np, ni, _) := leafCount tnodes
+  let rd := fun (key : String) => (kv args key) >>= (parseList (parseList parseFloat ·) · ";")
+  let pops ← rd "pops"
+  let inds ← rd "inds"
+  let roles ← (kv args "roles") >>= (parseList parseRole · ";")
+  if pops.length != np || inds.length != ni || roles.length != ni then none
+  let (gnodes, shapes, bad) := toGather tnodes
+  let inputs : Nat → List Float := fun k =>
+    if k ≥ unkBase then [] else if k ≥ indBase then (inds[k - indBase]?).getD [] else (pops[k]?).getD []
+  let ainputs : Nat → List (AVal Float) := fun k =>
+    if k ≥ unkBase then List.replicate (numel ((shapes[k - unkBase]?).getD [])) .dirty
+    else if k ≥ indBase then
+      let x := (inds[k - indBase]?).getD []
+      match roles[k - indBase]? with
+      | some .known => absInput true [] x
+      | some (.dirty bits) => absInput false bits x
+      | _ => absInput false (x.map fun _ => false) x
+    else ((pops[k]?).getD []).map fun _ => .clean
+  some ⟨tnodes, outs, gnodes, shapes, bad, inputs, ainputs, pops, inds⟩
+
+/-- evaluation through `Trace.lower` / `Trace.fnApply` with every input unbatched (cross-check of the gather tables) -/
+def fnEval (s : Setup) : List (Tn Float) :=
+  let np := s.pops.length
+  let tn := s.tnodes.map fun
+    | .ind k sh => TNode.pop (np + k) sh
+    | .ind1 k sh => TNode.pop (np + k) sh
+    | nd => nd
+  let shapeOf := fun (sel : TNode Float → Option (Nat × List Nat)) (k : Nat) =>
+    (((s.tnodes.filterMap sel).find? (·.1 = k)).map (·.2)).getD []
+  let popT := (s.pops.zipIdx.map fun (d, k) => (⟨shapeOf (fun | .pop k sh => some (k, sh) | _ => none) k, d.toArray⟩ : Tn Float)) ++
+    (s.inds.zipIdx.map fun (d, k) => (⟨shapeOf (fun | .ind k sh => some (k, sh) | .ind1 k sh => some (k, sh) | _ => none) k, d.toArray⟩ : Tn Float))
+  let p := lower tn s.outs
+  (eval (tensorSem floatOps) 1 (inputsOf popT [] []) p).map fun v => v.at 0
+
+def flagChar : AVal Float → String
+  | .known _ => "k" | .clean => "c" | .dirty => "d"
+
+def runTaint (args : List String) : Option String := do
+  let s ← setup args
+  let vals := (evalC floatOps s.inputs s.gnodes).toArray
+  let flags := (taint floatOps s.ainputs s.gnodes).toArray
+  let fmtF := fun (o : Nat) => s!"{o}:{"".intercalate (((flags[o]?).getD []).map flagChar)}"
+  let fmtV := fun (o : Nat) => s!"{o}:{fmtShape ((s.shapes[o]?).getD [])}:{fmtList fmtFloat ((vals[o]?).getD [])}"
+  let esc := s.tnodes.zipIdx.filterMap fun (nd, i) => match nd with
+    | .escape _ _ => if ((flags[i]?).getD []).any AVal.isDirty then some i else none
+    | _ => none
+  let fn := (fnEval s).toArray
+  let mism := (List.range s.gnodes.length).find? fun i =>
+    !s.bad.contains i && (match s.tnodes[i]? with | some (.escape _ _) => false | _ => true) &&
+    (match fn[i]?, vals[i]? with
+     | some t, some v => !(t.data.size == v.length && (t.data.toList.zip v).all fun (a, b) => feq a b)
+     | _, _ => true)
+  -- (an operation outside the table has no semantics on either side: nothing to compare downstream of it)
+  let xc := if !s.bad.isEmpty then "na" else match mism with | none => "1" | some i => s!"0:{i}"
+  some s!"flags={";".intercalate (s.outs.map fmtF)} vals={";".intercalate (s.outs.map fmtV)} dirtyesc={fmtList toString esc} unsupported={fmtList toString s.bad} xcheck={xc}"
+
+def runPath (args : List String) : Option String := do
+  let s ← setup args
+  let o ← (kv args "out") >>= parseNat
+  let q ← (kv args "pos") >>= parseNat
+  let flags := (taint floatOps s.ainputs s.gnodes).toArray
+  let isD := fun (a q : Nat) => match ((flags[a]?).getD [])[q]? with | some .dirty => true | _ => false
+  -- follow a dirty operand backwards (node ids strictly decrease)
+  let rec go (fuel a q : Nat) (acc : List (Nat × Nat)) : List (Nat × Nat) :=
+    match fuel with
+    | 0 => acc
+    | fuel + 1 =>
+      match s.gnodes[a]? with
+      | some (.gather _ deps) =>
+        match ((deps[q]?).getD []).find? fun (b, r) => isD b r with
+        | some (b, r) => go fuel b r (acc ++ [(b, r)])
+        | none => acc
+      | _ => acc
+  let path := go s.gnodes.length o q [(o, q)]
+  some s!"path={fmtList (fun (p : Nat × Nat) => s!"{p.1}:{p.2}") path}"
+
+end TaintDrv
+
 def handle (line : String) : String :=
   match line.splitOn " " with
   | "wsum" :: args =>
@@ -134,6 +350,8 @@ def handle (line : String) : String :=
       match eval ⟨vars, extTable⟩ e with
       | .ok r => some (fmtMT r)
       | .error err => some (fmtErr err)).getD "bad-request"
+  | "taint" :: args => (TaintDrv.runTaint args).getD "bad-request"
+  | "taintpath" :: args => (TaintDrv.runPath args).getD "bad-request"
   | _ => "bad-request"
 
 def main : IO Unit := loop handle
